@@ -110,6 +110,32 @@ def verus_part(out: Outcome, prop: str, decls, tag=None):
                     out.undecided.append('%s: %s (line %d, fn %s)' % (did, msg[:200], dg['line'], dg['fn']))
     # count obligations
     undecided_decls = set(u.split(':')[0] for u in out.undecided)
+    # Verus could not take some declaration (unsupported construct, lost anchor): that is undecided,
+    # never a violation by itself.  As a labelled, BOUNDED stand-in the real code of a few such
+    # declarations is executed against the reference on the boundary / special inputs; only a
+    # concrete failing input turns into a violation.
+    und = [by_id[i] for i in sorted(undecided_decls) if i in by_id]
+    picked = []
+    seen_shapes = set()
+    for d in und:
+        shape = (d.family, d.inner, tuple(s.kind for s in d.sanitizers), tuple(v.kind for v in d.validators))
+        if shape not in seen_shapes and len(picked) < 8:
+            seen_shapes.add(shape)
+            picked.append(d)
+    for d in picked:
+        try:
+            wit, wlog = witness.run_witness(d)
+        except Exception as e:
+            wit = None
+        if wit:
+            wit = [w for w in wit if w.get('entry') in PROP_ENTRIES.get(prop, ())]
+        if wit:
+            failed['%s::%s(concrete run, Verus undecided)' % (d.id, wit[0]['entry'])] = {
+                'backend': 'concrete-fallback (bounded: boundary/special inputs)', 'message': 'real code disagrees with the reference on a concrete input',
+                'detail': json.dumps(wit[:3]), 'decl': d.id, 'witness': wit}
+            nobl_extra = 1
+    if picked:
+        out.bounded.append('concrete fallback on %d declarations Verus could not take (%s…): boundary/special inputs only' % (len(picked), picked[0].id))
     nobl = 0
     for a in anns:
         if a.decl.id in undecided_decls:
@@ -176,7 +202,7 @@ def finalize(out: Outcome):
         if groups[g][0] not in ordered:
             ordered.append(groups[g][0])
     rest = [f for f in fresh if f not in ordered]
-    reps = ordered[:MAX_WITNESS_DECLS]
+    reps = (ordered + rest)[:MAX_WITNESS_DECLS]
     for f in reps:
         d = f.get('decl_obj')
         if f.get('witness') is None and d is not None:
